@@ -283,6 +283,7 @@ func Main(chk *Check, tier string, seed int64, replayPath string) int {
 	classes := map[string]*classAgg{}
 	allExhaustive := true
 	var capsHit []string
+	var subErrs []string
 
 	for _, sub := range chk.Subs {
 		if only := os.Getenv("VERIF_SUB"); only != "" && !strings.Contains(","+only+",", ","+sub.Name+",") {
@@ -290,8 +291,14 @@ func Main(chk *Check, tier string, seed int64, replayPath string) int {
 		}
 		st, smp, cls, err := runSub(sub, tier, deadline)
 		if err != nil {
+			// A sub-check that cannot complete (a harness assumption broken by the tree under
+			// test) is a harness error - but it must not hide what the other sub-checks find:
+			// the run continues, and the error decides the exit status only if nothing else does.
 			fmt.Fprintf(os.Stderr, "harness error in %s/%s: %v\n", chk.Property, sub.Name, err)
-			return 2
+			subErrs = append(subErrs, sub.Name)
+			allExhaustive = false
+			capsHit = append(capsHit, fmt.Sprintf("%s: did not complete (harness error)", sub.Name))
+			continue
 		}
 		stats = append(stats, st)
 		if !st.Exhaustive {
@@ -325,6 +332,7 @@ func Main(chk *Check, tier string, seed int64, replayPath string) int {
 	}
 	var knownLines, violLines []string
 	reruns := map[string][]map[string]*classAgg{}
+	var unconfirmed []*classAgg
 	for _, k := range keys {
 		agg := classes[k]
 		sub := subByName[agg.Sub]
@@ -363,8 +371,11 @@ func Main(chk *Check, tier string, seed int64, replayPath string) int {
 				}
 			}
 			if recurs < 2 {
-				fmt.Fprintf(os.Stderr, "harness error: finding %s in %s/%s does not replay deterministically (%s) and came back in only %d of 2 re-runs of the sub-check\n", agg.Class, chk.Property, agg.Sub, why, recurs)
-				return 2
+				// Not confirmed at sub-check level. It never blocks the findings that are
+				// confirmed; it is looked at again after the loop.
+				agg.Msg = fmt.Sprintf("%s [%s; came back in %d of 2 re-runs of the sub-check]", agg.Msg, why, recurs)
+				unconfirmed = append(unconfirmed, agg)
+				continue
 			}
 			agg.History = true
 			agg.Msg = "[history-dependent: fails only after the calls that precede it in the sub-check run; reproduced in 3 of 3 runs of the sub-check] " + agg.Msg
@@ -383,6 +394,56 @@ func Main(chk *Check, tier string, seed int64, replayPath string) int {
 		fmt.Printf("  violation class=%s sub=%s count=%d: %s\n", agg.Class, agg.Sub, agg.Count, agg.Msg)
 		violLines = append(violLines, fmt.Sprintf("VIOLATION property=%s replay=%s", chk.Property, path))
 		exit = 1
+	}
+	if len(unconfirmed) > 0 {
+		// A finding that neither replays alone nor comes back when its sub-check is re-run
+		// depends on state left behind by *other* sub-checks (a process-wide cache poisoned
+		// earlier) or on real nondeterminism. If other findings are confirmed the verdict is
+		// already decided and these are only listed. Otherwise the whole check (all sub-checks,
+		// in order) is re-run twice: an unlisted finding in the same sub-check must come back
+		// both times to count as a (cross-sub-check history-dependent) violation; if it does
+		// not, it is a harness error, never a verdict.
+		if violations == 0 {
+			var again [2]map[string]bool
+			for i := 0; i < 2; i++ {
+				again[i] = map[string]bool{}
+				for _, sub := range chk.Subs {
+					if only := os.Getenv("VERIF_SUB"); only != "" && !strings.Contains(","+only+",", ","+sub.Name+",") {
+						continue
+					}
+					_, _, cls, err := runSub(sub, tier, time.Now().Add(deadlineFor(tier)))
+					if err != nil {
+						continue
+					}
+					for c := range cls {
+						if _, isKnown := known[c]; !isKnown {
+							again[i][sub.Name] = true
+						}
+					}
+				}
+			}
+			for _, agg := range unconfirmed {
+				if !(again[0][agg.Sub] && again[1][agg.Sub]) {
+					fmt.Fprintf(os.Stderr, "harness error: finding %s in %s/%s does not replay deterministically: %s; and its sub-check reported nothing unlisted in 2 re-runs of the whole check\n", agg.Class, chk.Property, agg.Sub, agg.Msg)
+					return 2
+				}
+				agg.History = true
+				agg.Msg = "[history-dependent across sub-checks: fails only after the calls made by earlier sub-checks; an unlisted finding of this sub-check came back in 2 of 2 re-runs of the whole check] " + agg.Msg
+				violations++
+				path, err := writeReplay(chk.Property, agg)
+				if err != nil {
+					fmt.Fprintln(os.Stderr, "harness error:", err)
+					return 2
+				}
+				fmt.Printf("  violation class=%s sub=%s count=%d: %s\n", agg.Class, agg.Sub, agg.Count, agg.Msg)
+				violLines = append(violLines, fmt.Sprintf("VIOLATION property=%s replay=%s", chk.Property, path))
+				exit = 1
+			}
+		} else {
+			for _, agg := range unconfirmed {
+				fmt.Printf("  unconfirmed finding (not counted) class=%s sub=%s count=%d: %s\n", agg.Class, agg.Sub, agg.Count, agg.Msg)
+			}
+		}
 	}
 	for _, l := range knownLines {
 		fmt.Println(l)
@@ -435,6 +496,10 @@ func Main(chk *Check, tier string, seed int64, replayPath string) int {
 		"assumptions": chk.Assumptions,
 		"wall_s":      time.Since(start).Seconds(),
 		"violations":  violations,
+	}
+	if len(subErrs) > 0 && exit == 0 {
+		fmt.Fprintf(os.Stderr, "harness error: sub-checks %v did not complete\n", subErrs)
+		return 2
 	}
 	if err := writeEvidence(chk.Property, ev); err != nil {
 		fmt.Fprintln(os.Stderr, "harness error:", err)
